@@ -175,6 +175,9 @@ impl StepOut {
     }
 }
 
+/// Set when Foca drew randomness through anything but `next_u32`.
+pub static WIDE_DRAWS_SEEN: std::sync::atomic::AtomicBool = std::sync::atomic::AtomicBool::new(false);
+
 thread_local! {
     static LAST_PANIC: std::cell::RefCell<Option<String>> = const { std::cell::RefCell::new(None) };
 }
@@ -234,6 +237,11 @@ pub fn run_event(f: &mut F, ev: &Ev, script: &[u32]) -> StepOut {
         Err(_) => (Res::Ok, Some(take_last_panic().unwrap_or_else(|| "panic".into()))),
     };
     let rng = f.verif_rng_mut();
+    if rng.wide {
+        // draws other than next_u32: still answered from the script word by
+        // word, but the calibrated menu no longer guarantees every outcome
+        WIDE_DRAWS_SEEN.store(true, std::sync::atomic::Ordering::Relaxed);
+    }
     let out = StepOut {
         effects: rt.log,
         res,
